@@ -3,6 +3,7 @@ import RedoModel.Paths
 import RedoModel.DoFiles
 import RedoModel.LogRec
 import RedoModel.Commit
+import RedoModel.DepsWire
 open RedoModel RedoModel.Wire
 
 def decList (s : String) : Option (List (List Char)) :=
@@ -102,6 +103,7 @@ def respond (line : String) : String :=
       let d := Commit.decide { before := b, after := a, stdoutSize := sz, tmpExists := tmp == "1", rv := rv, renameFails := rf == "1" }
       "ops=" ++ ",".intercalate (d.ops.map showOp) ++ " rv=" ++ toString d.rv ++ " ok=" ++ toString d.recordedOk
     | _, _, _, _ => "bad-op"
+  | ["deps-run", d, n, rules, ops] => DepsWire.respond d n rules ops
   | _ => "bad-op"
 
 partial def loop (h : IO.FS.Stream) (out : IO.FS.Stream) : IO Unit := do
